@@ -149,39 +149,44 @@ Theorem C03_hyper_live_radial_spec ops k : RCoh k -> nonempty_sets ops -> spec_o
 Proof. exact (radial_model_meets_spec ops k). Qed.
 Print Assumptions C03_hyper_live_radial_spec.
 
-(* the tensor kernel: accepted iff every entry is admissible, an accepted vector reads back; through every history it stays a kernel that
-   computes with the admissible hyperparameters it reads back (component kernels with process variance 1) ... *)
+(* the tensor kernel (its setter builds the component kernels before it assigns anything - repair 65c6caf): accepted iff every entry is
+   admissible, an accepted vector reads back, and a REJECTED ASSIGNMENT - inadmissible process variance, physical length scale or task
+   length scale - LEAVES THE KERNEL UNCHANGED: what it reads back and what it computes with (every field) *)
 Theorem C03_hyper_live_multitask_assignment k hp : (2 <= length hp)%nat ->
-  snd (multitask_assign k hp) = valid hp /\ (valid hp = true -> multitask_get (fst (multitask_assign k hp)) = hp).
+  snd (multitask_assign k hp) = valid hp /\ (valid hp = true -> multitask_get (fst (multitask_assign k hp)) = hp) /\
+  (valid hp = false -> fst (multitask_assign k hp) = k).
 Proof. exact (multitask_assign_spec k hp). Qed.
 Print Assumptions C03_hyper_live_multitask_assignment.
-Theorem C03_hyper_live_multitask_history hp0 k ops : multitask_set hp0 = Some k ->
-  MCoh (fst (run multitask_step k ops)) /\ valid (multitask_get (fst (run multitask_step k ops))) = true.
+Theorem C03_hyper_live_multitask_rejected_leaves_unchanged k hp k' : multitask_assign k hp = (k', false) -> k' = k.
+Proof. exact (multitask_rejected_unchanged k hp k'). Qed.
+Print Assumptions C03_hyper_live_multitask_rejected_leaves_unchanged.
+(* for every sequence of operations on a constructed tensor kernel: it computes with the process variance it reads back and with component
+   kernels of process variance 1 that read back their own length scales (MCoh), what it reads back is admissible, and it is the last vector
+   that was accepted *)
+Theorem C03_hyper_live_multitask_history hp0 k ops : multitask_set hp0 = Some k -> (2 <= length hp0)%nat -> long_sets ops ->
+  let k' := fst (run multitask_step k ops) in
+  MCoh k' /\ valid (multitask_get k') = true /\ multitask_get k' = last_accepted hp0 ops.
 Proof. exact (multitask_life_coherent hp0 k ops). Qed.
 Print Assumptions C03_hyper_live_multitask_history.
-Theorem C03_hyper_live_multitask_spec ops k cur : MCoh k -> long_sets ops -> (cur = [] \/ cur = multitask_get k) ->
-  spec_outs false cur ops (snd (run multitask_step k ops)) = true.
-Proof. exact (multitask_model_meets_spec ops k cur). Qed.
+Theorem C03_hyper_live_multitask_spec ops k : MCoh k -> long_sets ops ->
+  spec_outs true (multitask_get k) ops (snd (run multitask_step k ops)) = true.
+Proof. exact (multitask_model_meets_spec ops k). Qed.
 Print Assumptions C03_hyper_live_multitask_spec.
-(* ... a vector rejected for its process variance changes nothing ... *)
-Theorem C03_hyper_live_multitask_bad_alpha_unchanged k a rest : entry_ok a = false -> multitask_assign k (a :: rest) = (k, false).
-Proof. exact (multitask_rejected_bad_alpha_unchanged k a rest). Qed.
-Print Assumptions C03_hyper_live_multitask_bad_alpha_unchanged.
-(* ... but the FULL statement "a rejected assignment leaves the object unchanged" is FALSE for the tensor kernel as the code stands: the
-   process variance (and the physical length scales, when the task length scale is the inadmissible entry) of the rejected vector have been
-   assigned by the time the component kernel raises.  Witness replayed on the running class by the correspondence on every run:
-   [1.5, 0.5, 2, 0.25] then the rejected [3, 1, 1, 0] reads back [3, 1, 1, 0.25] - neither the old vector nor the rejected one. *)
-Theorem C03_hyper_live_multitask_rejected_unchanged_refuted :
-  exists k hp k', multitask_set [Fin (3#2); Fin (1#2); Fin 2; Fin (1#4)] = Some k /\ multitask_assign k hp = (k', false) /\
-                  multitask_get k' <> multitask_get k /\ multitask_get k' <> hp.
-Proof. exact multitask_rejected_unchanged_refuted. Qed.
-Print Assumptions C03_hyper_live_multitask_rejected_unchanged_refuted.
 
 (* a concrete history (hypotheses satisfiable): construct, reject a vector with a negative length scale, use, read back, accept another *)
 Example C03_hyper_live_example :
   match radial_set [Fin 2; Fin (1#2)] with
   | Some k => snd (run radial_step k [HSet [Fin 1; Fin (-1)]; HProbe; HGet; HSet [Fin 3; Fin 4]; HGet])
               = [OSet false; OProbe (Fin 2) true; OGet [Fin 2; Fin (1#2)]; OSet true; OGet [Fin 3; Fin 4]]
+  | None => False
+  end.
+Proof. vm_compute. reflexivity. Qed.
+(* the same for the tensor kernel - the input that showed the repaired defect: [1.5, 0.5, 2, 0.25], then [3, 1, 1, 0] is rejected for its task
+   length scale and nothing of it is taken *)
+Example C03_hyper_live_multitask_example :
+  match multitask_set [Fin (3#2); Fin (1#2); Fin 2; Fin (1#4)] with
+  | Some k => snd (run multitask_step k [HSet [Fin 3; Fin 1; Fin 1; Fin 0]; HGet; HProbe; HSet [Fin 3; Fin 1; Fin 1; Fin 2]; HGet])
+              = [OSet false; OGet [Fin (3#2); Fin (1#2); Fin 2; Fin (1#4)]; OProbe (Fin (3#2)) true; OSet true; OGet [Fin 3; Fin 1; Fin 1; Fin 2]]
   | None => False
   end.
 Proof. vm_compute. reflexivity. Qed.
